@@ -149,6 +149,10 @@ def run(tier, seed, replay=None):
             try:
                 At = torch.tensor(A, dtype=dtype)
                 srcA = At.numpy() if src == "numpy" else At
+                if i % 3 == 1 and At.dim() >= 2:            # the same logical array in column-major memory (a numpy F-ordered array / a torch view with reversed strides)
+                    rev = list(range(At.dim()))[::-1]
+                    srcA = np.asfortranarray(At.numpy()) if src == "numpy" else At.permute(rev).contiguous().permute(rev)
+                    desc["memory_layout"] = "column-major"; dist["column-major source" + (" with a prescribed shape" if shape is not None else "")] = dist.get("column-major source" + (" with a prescribed shape" if shape is not None else ""), 0) + 1
                 kw = {}
                 if rmax is not None: kw["rmax"] = rmax
                 x = torchtt.TT(srcA, shape=shape, eps=eps, **kw) if shape is not None else torchtt.TT(srcA, eps=eps, **kw)
